@@ -410,6 +410,19 @@ def run(chk, tier, scale=1.0):
             wf_seen.add((kind, func))
             chk.violation(Violation("C08", "crash", "%s|%s" % (kind, func), "daemon failed (%s in %s) during a well-formed history\n%s\nlast steps:\n%s" % (kind, func, err, tail),
                                     {"config": r["config"], "events": r["events"], "wellformed": True}))
+    # bursts that are a whole number of 4096-byte reads long, with the input left OPEN afterwards: the daemon must come to rest in
+    # its event loop having handled every line - not inside read(2), holding lines it has taken and not looked at ("nor hangs")
+    bj = [dict(build=b, seed=chk.seed * 1117 + k, n=[40, 120, 300][k % 3], service=(k % 2 == 1), pad4096=True, sock=(k % 4 == 3)) for k in range(int((6 if q else 60) * scale) or 1)]
+    for r in vcommon.pmap(pcommon.burst_worker, bj):
+        chk.add_case(r["hash"], r["nontrivial"])
+        chk.count("runs_burst_of_whole_reads_then_silence")
+        for w in r["inconc"]:
+            chk.inconc(w)
+        if r["stats"].get("burst_runs_ending_blocked_in_read"):
+            wit = [v[4] for v in r["viol"]][:1] or [{"burst": True}]
+            chk.violation(Violation("C08", "hang", "hang:blocked-in-read", "after a burst of %d lines (a whole number of 4096-byte reads) with the input left open the daemon sleeps inside read(2) "
+                                    "on its input, nothing left to read, for two seconds on end; lines it has taken are unanswered: %s" % (
+                                        r["stats"]["burst_lines"], [v[3][:300] for v in r["viol"]][:1]), dict(wit[0], burst=True)))
     seen_crash = {}
     sampled = set()
     for kind, packed in res:
@@ -480,6 +493,11 @@ def run(chk, tier, scale=1.0):
 def replay(chk, rep):
     b = prun.build_daemon("c08-replay")
     w = rep["witness"]
+    if w.get("burst"):
+        from checks import pcommon
+        r = pcommon.burst_worker(dict(build=b, seed=w["seed"], n=w["n"], service=w.get("service"), after=w.get("after"), sock=w.get("sock"), pad4096=w.get("pad4096")))
+        print(r["stats"])
+        return 1 if r["stats"].get("burst_runs_ending_blocked_in_read") else 0
     if w.get("wellformed"):
         return prun.replay_witness(chk, rep, [])
     if w.get("tag") == "chunk-shared-socket":
